@@ -84,7 +84,7 @@ def check_frames(sx, air, lri, lrt, tag=""):
 
 
 def conversation(sx, tech, brs, lri, lrt, did, nad, shapes, faults,
-                 rwt=8, window=40, ex_timeout=EX_TIMEOUT):
+                 rwt=8, window=40, ex_timeout=EX_TIMEOUT, release=True):
     """one conversation: activate both sides, n application exchanges in
     each direction under a fault script, release.
 
@@ -152,7 +152,8 @@ def conversation(sx, tech, brs, lri, lrt, did, nad, shapes, faults,
             finally:
                 air.step = None
         air.faults_on = False
-        ini.deactivate(release=True)
+        if release:
+            ini.deactivate(release=True)
         air.field_off()
     finally:
         air.abort()
@@ -164,6 +165,7 @@ def conversation(sx, tech, brs, lri, lrt, did, nad, shapes, faults,
                      same_bytes(sx, I['gb'], b"Ffm\x01\x01\x11")]),
              "activation:general-bytes-not-exchanged")
     cls, last = classify(air.frames)
+    t_end_ok = "None" if release else "BrokenLinkError"
     why = describe(last) + (":did" if did is not None else "") + \
         (":nad" if nad is not None else "")
     sx.reach("script:" + cls)
@@ -205,7 +207,7 @@ def conversation(sx, tech, brs, lri, lrt, did, nad, shapes, faults,
     if cls == 'clean':
         if I['end'] is not None:
             sx.check(False, "fault-free-exchange-failed:initiator:" + I['end'])
-        if T['end'] != "None" or len(T['recv']) != n:
+        if T['end'] != t_end_ok or len(T['recv']) != n:
             sx.check(False, "fault-free-exchange-failed:target:" + str(T['end']))
     elif cls == 'single' and ex_timeout < EX_TIMEOUT:
         # short deadline: one lost frame may legitimately exhaust it
@@ -216,7 +218,7 @@ def conversation(sx, tech, brs, lri, lrt, did, nad, shapes, faults,
     elif cls == 'single':
         if I['end'] is not None:
             sx.check(False, "single-fault-not-recovered:initiator:" + why)
-        if T['end'] != "None" or len(T['recv']) != n:
+        if T['end'] != t_end_ok or len(T['recv']) != n:
             sx.check(False, "single-fault-not-recovered:target:" + why)
     if I['end'] is None:
         sx.reach("completed:" + cls)
@@ -230,6 +232,7 @@ def conversation(sx, tech, brs, lri, lrt, did, nad, shapes, faults,
            and not f.fault) > 4 and I['end'] is None:
         sx.reach("pni-wrap")
     sx.reach("framing:" + want)
+    sx.reach("target-ends:" + str(T['end']))
     if did is not None:
         sx.reach("did")
     if nad is not None:
@@ -328,6 +331,9 @@ def partitions(tier):
     # ---- a deadline that one lost frame exhausts (RWT 77.33 ms, 77.5 ms)
     conv("deadline:106A:f1", [[ONE + ONE], [M1 + M1]], 1 if quick else 2,
          ex_timeout=0.0775)
+    # ---- no release: the initiator just switches its field off
+    conv("field-off:212F:f1", [[M1 + M1, ONE + ONE]], 1 if quick else 2,
+         tech='212F', release=False)
     # ---- response waiting times other than the default
     conv("rwt0:106A:f1", [[M1 + ONE]], 1, rwt=0)
     if not quick:
@@ -339,7 +345,7 @@ MUST_REACH = ["script:clean", "script:single", "script:multi", "completed:clean"
               "completed:single", "completed:multi", "failed:multi",
               "chaining:initiator", "chaining:target", "pni-wrap",
               "framing:106A", "framing:212F", "framing:424F", "did", "nad",
-              "deadline-expired",
+              "deadline-expired", "target-ends:None", "target-ends:BrokenLinkError",
               "fault:req-INF:lose", "fault:req-INF:corrupt",
               "fault:req-INF+:lose", "fault:req-INF+:corrupt",
               "fault:rsp-INF:lose", "fault:rsp-INF:corrupt",
@@ -360,7 +366,7 @@ BOUNDS = {
     "framing; conversations of 2 and 3 exchanges (PNI wraps) with <= 2 / 1 "
     "faults; LR pairs (0,3) (1,2) (2,1) (3,0) (3,3) with lengths miu, miu+1 "
     "and 1 fault; PSL to 212F/424F; DID=1 and NAD=2 with 1 fault; RWT code "
-    "0 and 8; one variant with a 77.5 ms deadline (RWT 77.33 ms)",
+    "0 and 8; one conversation ended by field-off instead of release; one variant with a 77.5 ms deadline (RWT 77.33 ms)",
     "thorough": "as quick with <= 3 faults for all 36 length pairs "
     "{1, miu-1, miu, miu+1, 2miu, 2miu+1}^2 of one exchange in both framings, "
     "2..4 exchanges with <= 2 faults (<= 3 for five of them, <= 4 for two "
